@@ -114,6 +114,7 @@ impl RK4 {
 
         // --- Initializations ---
         f.ode(x, &y, &mut k1);
+        evals.ode += 1;
 
         // Initial SolOut call (no interpolator yet; xold == x)
         if let Some(sol) = solout.as_mut() {
@@ -181,6 +182,7 @@ impl RK4 {
 
             evals.ode += 4;
             steps.total += 1;
+            steps.accepted += 1;
 
             // Decide if we must build dense output (for user xout events as well)
             let event = xout.map_or(false, |xo| xo <= x);
